@@ -12,7 +12,7 @@ from sx import Sym
 RULE = ("seeded edit histories (length<=12) on the three channel-mapped block types from three starts (empty block, "
         "constructor-filled block, block decoded from bytes): add with automatic/explicit (free or taken) channel, remove by "
         "label / index (incl. negative and out of range) / item, bulk add / remove, bulk assignment (pairs; items with and "
-        "without an invalid element); then encode + decode. Observed through the public API: (channel, item) pairs and the "
+        "without an invalid element), the caller editing the list it had handed to the constructor; then encode + decode. Observed through the public API: (channel, item) pairs and the "
         "channel map in the encoded bytes. non-trivial = history with >=1 removal and >=1 later add; distinct by (kind, start, edits)")
 ASSUMPTIONS = ["channels, including automatic ones (max+1), stay inside the on-disk range (i16 / u16): explicit channels within 500 of the top of the range are not generated",
                "items are identified by object identity (python id) on the real side and by opaque ids in the model",
@@ -28,6 +28,7 @@ class Real:
         self.objs = {}         # model id -> object
         self.next = 10
         self.n = rng.choice([1, 3, 5])
+        self.caller_list = None
 
     def new_item(self, label=None):
         rng = self.rng
@@ -59,7 +60,8 @@ class Real:
             from basictdf.tdfForcePlatformsCalibration import ForcePlatformsCalibrationDataBlock
             if how == "construct":
                 items = [self.new_item() for _ in range(rng.randrange(1, 4))]
-                self.blk = ForcePlatformsCalibrationDataBlock(platforms=[it for _, it in items])
+                self.caller_list = [it for _, it in items]     # the caller keeps (and later edits) the list it handed over
+                self.blk = ForcePlatformsCalibrationDataBlock(platforms=self.caller_list)
                 return [Sym("construct"), [m for m, _ in items]]
             self.blk = ForcePlatformsCalibrationDataBlock()
         else:
@@ -121,6 +123,16 @@ def gen_edit(r, rng):
     lo, hi = (0, 65536) if kind == "platdata" else (-32768, 32768)
     x = rng.random()
     add = r.blk.addSignal if kind == "emg" else r.blk.add_platform
+    if getattr(r, "caller_list", None) is not None and rng.random() < 0.15:
+        # the caller edits the list it gave to the constructor: the block took the items, not the list -> nothing changes
+        lst = r.caller_list
+        _, it = r.new_item()
+
+        def caller_edit():
+            lst.append(it)
+            if len(lst) > 1 and rng.random() < 0.5:
+                del lst[0]
+        return (caller_edit, [Sym("removeMany"), []], "caller edits the list it gave to the constructor")
     if x < 0.4 or not items:
         mid, it = r.new_item()
         y = rng.random()
